@@ -167,6 +167,17 @@ func (c *Ctx) loaderCrashSweep() {
 	for i := 0; i < c.Pick(3000, 30000); i++ {
 		add([]string{MutateTokens(c.R, ss[c.R.Intn(len(ss))])})
 	}
+	// every pair of type wrappers between an interface field (or argument) and its implementation
+	wrappers := []string{"X", "X!", "[X]", "[X]!", "[X!]", "[X!]!", "[[X]]", "[[X]!]", "[[X!]]!", "[[[X]]]"}
+	for _, wi := range wrappers {
+		for _, wt := range wrappers {
+			for _, base := range [][2]string{{"Int", "Int"}, {"U", "A"}, {"I", "T"}, {"Int", "String"}} {
+				ti := strings.ReplaceAll(wi, "X", base[0])
+				tt := strings.ReplaceAll(wt, "X", base[1])
+				add([]string{"interface I { f: " + ti + " g(a: " + strings.ReplaceAll(wi, "X", "Int") + "): Int }\ntype T implements I { f: " + tt + " g(a: " + strings.ReplaceAll(wt, "X", "Int") + "): Int }\ntype A { x: Int }\nunion U = A | T\ntype Query { i: I }"})
+			}
+		}
+	}
 	// the corpus of the loader checks, former crash witnesses included, and its token mutations
 	for _, s := range loadCorpus() {
 		add([]string{s})
